@@ -45,6 +45,10 @@ var c07Corpus = []string{
 	`k = 123456; function bump() { k++; return k; } a = bump(); b = bump(); hv(a, b); return b - a;`,
 	`function pick(v) { return v > 1 ? "big" : "small"; } out = []; foreach x in [1, 2, 3] { hv(pick(x)); } return len(out);`,
 	`m = 0; foreach i, x in 5..8 { m = m + i * x; } foreach i, x in "ab" { m = m + i; } h(m); return m;`,
+	// the index of a foreach kept in a variable that outlives the run, over values that outlive it too
+	`if (A > 1) { foreach i, ch in "abcdef" { pos = i; if (i == B) { return pos; } } } foreach j, ch in "abcdef" { x = ch; } h(pos); return pos;`,
+	`if (!arr) { arr = [10, 20, 30, 40]; } if (A > 1) { foreach i, v in arr { at = i; if (v > 15 + B) { return at; } } } n = 0; foreach i, v in arr { n = n + v; } h(at); return at;`,
+	`if (A > 0) { foreach k, v in {"a": 1, "b": 2, "c": 3} { key = k; val = v; if (v > B) { return key; } } } foreach k, v in {"a": 1, "b": 2, "c": 3} { x = v; } h(key); h(val); return key;`,
 	`function twice(f) { return f * 2; } acc = 3.25; acc = acc + twice(acc); hv(acc); big = 99999; big++; return big;`,
 	`if (S ~= /^h/) { hits++; } else { if (!hits) { hits = 0; } } h(hits); return hits;`,
 	`function depth3(n) { foreach a in 1..2 { foreach b in 1..2 { hv(a, b, n); if (a == 2 && b == 1) { return a + b + n; } } } return 0; } function depth2(n) { return depth3(n + 1); } function depth1(n) { return depth2(n + 1); } z = depth1(C); return z;`,
